@@ -176,6 +176,17 @@ pub mod rust_decimal {
         }
     }
 
+    impl Ord for Decimal {
+        #[verifier::external_body]
+        fn cmp(&self, o: &Decimal) -> (r: std::cmp::Ordering) { unimplemented!() }
+    }
+    impl vstd::std_specs::cmp::OrdSpecImpl for Decimal {
+        open spec fn obeys_cmp_spec() -> bool { true }
+        open spec fn cmp_spec(&self, o: &Decimal) -> std::cmp::Ordering {
+            if self@ < o@ { std::cmp::Ordering::Less } else if self@ > o@ { std::cmp::Ordering::Greater } else { std::cmp::Ordering::Equal }
+        }
+    }
+
     impl std::ops::Add for Decimal { type Output = Decimal;
         #[verifier::external_body] fn add(self, rhs: Decimal) -> (r: Decimal) ensures r@ == self@ + rhs@ { unimplemented!() } }
     impl std::ops::Sub for Decimal { type Output = Decimal;
